@@ -801,7 +801,9 @@ class APTMirror:
                     f" {strerror}"
                 )
 
-        lock_file.unlink(missing_ok=True)
+        # The lock file is deliberately left in place: removing the name after
+        # the descriptor is closed lets a process which opened the old file and
+        # a process which creates a new one hold "the" lock at the same time
 
     def _write_hashsums(
         self,
